@@ -46,6 +46,9 @@ Definition pitem : P item_d :=
     ms <- plist (ty <- pint ;; rf <- pint ;; ro <- pint ;; ret (mkMemD ty rf ro)) ;; fm <- pbool ;;
     ret (IRel (mkRelD id hi fl i t ft ms fm))
   else if k =? 3 then id <- pint ;; ret (IChangeset id)
+  else if k =? 4 then
+    id <- pint ;; la <- pint ;; lo <- pint ;; hi <- pbool ;; fl <- pflags ;; i <- pinfo_d ;; t <- ptags_d ;;
+    ret (INode (mkPN id la lo hi fl i t))
   else pfail.
 
 Definition pblock_d : P block_d :=
@@ -168,6 +171,29 @@ Definition canon_group (m : msg) : msg := map (on_msg canon_item) (drop_unknown 
 Definition canon_block (m : msg) : msg :=
   sort_fields (map (fun x => if fst x =? 2 then on_msg canon_group x else x) (drop_unknown m)).
 Definition canon_header (m : msg) : msg := sort_fields (map (on_msg canon_leaf) (drop_unknown m)).
+
+(* ---------- packed columns split into several chunks ---------- *)
+(* protobuf: "a packed repeated field may occur more than once in a message; the payloads are
+   concatenated".  After the stable sort the chunks of one column are adjacent and in wire order:
+   merge them.  mcanon_* = canon_* followed by this merge at every level: the canonical form of a
+   tree with respect to the FORMAT's notion of equality.  On trees without split columns (every
+   reference encoding) mcanon_* and canon_* agree.  The decoder under test keeps only the LAST chunk
+   of a split column (known finding "packed-column-split", split_packed_refuted in ProofsLayout.v). *)
+Fixpoint merge_adj (m : msg) : msg :=
+  match m with
+  | [] => []
+  | (n, WPacked a) :: r =>
+      match merge_adj r with
+      | (k, WPacked b) :: r' => if n =? k then (n, WPacked (a ++ b)) :: r' else (n, WPacked a) :: (k, WPacked b) :: r'
+      | r' => (n, WPacked a) :: r'
+      end
+  | f :: r => f :: merge_adj r
+  end.
+Definition mcanon_leaf (m : msg) : msg := merge_adj (canon_leaf m).
+Definition mcanon_item (m : msg) : msg := merge_adj (sort_fields (map (on_msg mcanon_leaf) (drop_unknown m))).
+Definition mcanon_group (m : msg) : msg := map (on_msg mcanon_item) (drop_unknown m).
+Definition mcanon_block (m : msg) : msg :=
+  sort_fields (map (fun x => if fst x =? 2 then on_msg mcanon_group x else x) (drop_unknown m)).
 
 (* ---------- a file scanned by n workers ---------- *)
 (* block k goes to worker k mod n; each worker threads its own decoder state; the serializer
